@@ -124,10 +124,12 @@ void pbt_run(const Case& c, Ctx& ctx) {
       else { B = *b[j]; M.bytes = m[j].bytes; if (m[j].bytes.size() > capBefore) became_owning(i); }
     }
     else if (nm == "append") { B.append(dp, d.size()); M.bytes += d; if (M.bytes.size() > capBefore) became_owning(i); }
+    else if (nm == "appendb" && M.bytes.size() + m[j].bytes.size() > 60000) { ctx.count("skipped_big"); }   // repeated appending of buffers doubles the sizes
     else if (nm == "appendb") { std::string add = m[j].bytes; B.append(*b[j]); M.bytes += add; if (M.bytes.size() > capBefore) became_owning(i); if (i == j) ctx.label("append_self"); }
     else if (nm == "prepend" || nm == "prependb") {
       std::string add = d;
       size_t oldSize = M.bytes.size();
+      if (nm == "prependb" && M.bytes.size() + m[j].bytes.size() > 60000) { ctx.count("skipped_big"); free(exact); continue; }
       if (nm == "prependb") { if (i == j) { ctx.count("skipped"); free(exact); continue; } add = m[j].bytes; B.prepend(*b[j]); }
       else B.prepend(dp, d.size());
       M.bytes = add + M.bytes;
